@@ -1,10 +1,124 @@
 import Model.Common.Proto
-open Btc
+import Model.Common.HashProto
+import Model.C12.Taproot
+import Generated.Taproot
+open Btc Btc.Taproot
 
-/-- line protocol of property C12: see harness/c12.py -/
-def handle : List String → String
-  -- one line per generated module this driver serves, e.g.
-  -- | "gen" :: "VarInt" :: fn :: args => (Gen.VarInt.dispatch fn args).getD "bad-op"
+/-!
+line protocol of property C12 (harness/c12.py).  Group: `Btc.EC.ops secp256k1`; hash: `Btc.taggedHash`.
+
+  tree <T>                         → ok <root> <v:script:path>|<v:script:path>|…
+  leafhash <v> <script>            → ok <hex>
+  outpub <sec|-> <T|->             → ok <q> <parity>
+  outpubroot <x32> <root>          → ok <q> <parity>          (output_pubkey_from_merkle_root)
+  outprv <d> <T|->                 → ok <d'>
+  outprvroot <d> <root>            → ok <d'>
+  iss <sec|-> <T> <i>              → ok <script> <control>
+  check <q> <script> <control>     → ok True|False
+  const                            → the generated constants
+T is a tree in prefix form, `;`-separated: `L.<version>.<scripthex>` | `N;<T>;<T>`.
+-/
+
+def ops := Btc.EC.ops Btc.EC.secp256k1
+def TH : TagHash := taggedHash
+
+def parseTree : Nat → List String → Option (Tree × List String)
+  | 0, _ => none
+  | _, [] => none
+  | fuel + 1, tok :: rest =>
+    if tok == "N" then
+      match parseTree fuel rest with
+      | none => none
+      | some (l, rest') =>
+        match parseTree fuel rest' with
+        | none => none
+        | some (r, rest'') => some (.node l r, rest'')
+    else
+      match tok.splitOn "." with
+      | ["L", v, s] =>
+        match v.toNat?, fromHex? s with
+        | some v, some s => some (.leaf v s, rest)
+        | _, _ => none
+      | _ => none
+
+def tree? (s : String) : Option Tree :=
+  let toks := s.splitOn ";"
+  match parseTree (toks.length + 1) toks with
+  | some (t, []) => some t
+  | _ => none
+
+def optTree? (s : String) : Option (Option Tree) :=
+  if s == "-" then some none else (tree? s).map some
+
+def optHex? (s : String) : Option (Option Bytes) :=
+  if s == "-" then some none else (fromHex? s).map some
+
+def rErr (e : Err) : String := s!"err {e.name}"
+
+def rKey : Except Err (Bytes × Nat) → String
+  | .ok (q, p) => s!"ok {toHex q} {p}"
+  | .error e => rErr e
+
+def rInt : Except Err Int → String
+  | .ok d => s!"ok {d}"
+  | .error e => rErr e
+
+def handle (toks : List String) : String :=
+  match Btc.hashOp toks with
+  | some r => r
+  | none =>
+  -- `op@lib` / `op@py` name the arithmetic arm of the IMPLEMENTATION; the model has one answer for both
+  let toks := match toks with
+    | op :: rest => ((op.splitOn "@").headD op) :: rest
+    | [] => []
+  match toks with
+  | "gen" :: "Taproot" :: fn :: args => (Gen.Taproot.dispatch fn args).getD "bad-op"
+  | "gen" :: "VarInt" :: fn :: args => (Gen.VarInt.dispatch fn args).getD "bad-op"
+  | ["const"] =>
+    s!"ok {toHex Gen.Taproot.TAG_LEAF} {toHex Gen.Taproot.TAG_BRANCH} {toHex Gen.Taproot.TAG_TWEAK} " ++
+    s!"{Gen.Taproot.MAX_TREE_DEPTH} {Gen.Taproot.CONTROL_HEAD} {Gen.Taproot.NODE_SIZE} " ++
+    s!"{Gen.Taproot.LEAF_MASK} {Gen.Taproot.PARITY_MASK} {toHex numsSec}"
+  | ["tree", t] =>
+    match tree? t with
+    | some t =>
+      let (ls, r) := treeHelper TH t
+      s!"ok {toHex r} " ++ "|".intercalate (ls.map fun ((v, s), p) => s!"{v}:{toHex s}:{toHex p}")
+    | none => "bad-op"
+  | ["leafhash", v, s] =>
+    match v.toNat?, fromHex? s with
+    | some v, some s => if v < 256 then s!"ok {toHex (leafHash TH v s)}" else "bad-op"
+    | _, _ => "bad-op"
+  | ["outpub", sec, t] =>
+    match optHex? sec, optTree? t with
+    | some sec, some t => rKey (outputPubkey ops TH sec t)
+    | _, _ => "bad-op"
+  | ["outpubroot", x, r] =>
+    match fromHex? x, fromHex? r with
+    | some x, some r => if x.length ≠ 32 then "err key" else rKey (tweakedPubkey ops TH (2 :: x) r)
+    | _, _ => "bad-op"
+  | ["outprv", d, t] =>
+    match parseInt? d, optTree? t with
+    | some d, some t => rInt (outputPrvkey ops TH d t)
+    | _, _ => "bad-op"
+  | ["outprvroot", d, r] =>
+    match parseInt? d, fromHex? r with
+    | some d, some r =>
+      if ¬ (0 < d ∧ d < ops.n) then "err prv" else rInt (tweakedPrvkey ops TH d r)
+    | _, _ => "bad-op"
+  | ["iss", sec, t, i] =>
+    match optHex? sec, tree? t, parseInt? i with
+    | some sec, some t, some i =>
+      match inputScriptSig ops TH sec t i with
+      | .ok (s, c) => s!"ok {toHex s} {toHex c}"
+      | .error e => rErr e
+    | _, _, _ => "bad-op"
+  | ["check", q, s, c] =>
+    match fromHex? q, fromHex? s, fromHex? c with
+    | some q, some s, some c =>
+      match checkOutputPubkey ops TH q s c with
+      | .ok b => if b then "ok True" else "ok False"
+      | .error e => rErr e
+    | _, _, _ => "bad-op"
   | _ => "bad-op"
 
 def main : IO Unit := runLoop handle
